@@ -81,3 +81,21 @@ Lemma dyn_bulk_used_levels_tie : forall base n ml, dyn_bulk_used_levels base n m
 Proof. intros; unfold dyn_bulk_used_levels; reflexivity. Qed.
 Lemma dyn_bulk_levels_count_tie : forall used ml, dyn_bulk_levels_count used ml = Z.max used 32 - ml + 1.
 Proof. intros; unfold dyn_bulk_levels_count; lia. Qed.
+
+(* ---- pos = std::min<T>(prediction, next intercept): with T = size_t neither argument is narrowed, so the capped position
+        is the plain minimum the models use (a narrower T would wrap predictions >= 2^width before the cap) ---- *)
+Lemma wrapU64_id : forall z, 0 <= z < 2 ^ 64 -> wrapU 64 z = z.
+Proof. intros z H. unfold wrapU. apply Z.mod_small. exact H. Qed.
+Ltac captie := intros e i He Hi; cbv delta [pgm_pos_cap_0 pgm_pos_cap_1 cmp_pos_cap_0 cmp_pos_cap_1 cmp_pos_cap_2 bkt_pos_cap_0 efi_pos_cap_0 capi_pos_cap_0] beta;
+  rewrite !wrapU64_id by assumption; reflexivity.
+Lemma pgm_pos_cap_tie : forall e i, 0 <= e < 2 ^ 64 -> 0 <= i < 2 ^ 64 -> pgm_pos_cap_0 e i = Z.min e i /\ pgm_pos_cap_1 e i = Z.min e i.
+Proof. intros e i He Hi; split; revert e i He Hi; captie. Qed.
+Lemma cmp_pos_cap_tie : forall e i, 0 <= e < 2 ^ 64 -> 0 <= i < 2 ^ 64 ->
+  cmp_pos_cap_0 e i = Z.min e i /\ cmp_pos_cap_1 e i = Z.min e i /\ cmp_pos_cap_2 e i = Z.min e i.
+Proof. intros e i He Hi; repeat split; revert e i He Hi; captie. Qed.
+Lemma bkt_pos_cap_tie : forall e i, 0 <= e < 2 ^ 64 -> 0 <= i < 2 ^ 64 -> bkt_pos_cap_0 e i = Z.min e i.
+Proof. captie. Qed.
+Lemma efi_pos_cap_tie : forall e i, 0 <= e < 2 ^ 64 -> 0 <= i < 2 ^ 64 -> efi_pos_cap_0 e i = Z.min e i.
+Proof. captie. Qed.
+Lemma capi_pos_cap_tie : forall e i, 0 <= e < 2 ^ 64 -> 0 <= i < 2 ^ 64 -> capi_pos_cap_0 e i = Z.min e i.
+Proof. captie. Qed.
